@@ -318,7 +318,7 @@ static void combScenario(uint64_t seed, long long it, vh::SplitMix& rng) {
 static void thenScenario(uint64_t seed, long long it, vh::SplitMix& rng) {
   int sched = (int)rng.below(5);  // 0 immediate 1 pool 2 newthread 3 taskset 4 concurrent taskset
   int depth = (int)rng.range(1, 3), fan = (int)rng.range(1, 3);
-  bool lateRun = rng.coin(), inlineGet = rng.coin();
+  bool lateRun = rng.coin(), inlineGet = rng.coin(), notDeferred = rng.coin();
   dsched::Options o;
   o.seed = seed * 9000011 + it;
   o.strategy = (it % 3 == 2) ? dsched::PCT : dsched::RANDOM;
@@ -326,7 +326,8 @@ static void thenScenario(uint64_t seed, long long it, vh::SplitMix& rng) {
   o.recordTrace = false;
   static const char* sn[] = {"immediate", "pool", "newthread", "taskset", "ctaskset"};
   std::string desc = std::string("then sched=") + sn[sched] + " depth=" + std::to_string(depth) + " fan=" + std::to_string(fan) +
-      " lateRun=" + std::to_string(lateRun) + " inlineGet=" + std::to_string(inlineGet) + " seed=" + std::to_string(o.seed);
+      " lateRun=" + std::to_string(lateRun) + " inlineGet=" + std::to_string(inlineGet) + " notDeferred=" + std::to_string(notDeferred) +
+      " seed=" + std::to_string(o.seed);
   auto& sctx = dsh::stuckCtx();
   sctx.signature = "then scenario: a thread never returns";
   sctx.detail = desc;
@@ -351,6 +352,17 @@ static void thenScenario(uint64_t seed, long long it, vh::SplitMix& rng) {
         if (peekStatus(ai) != 2) dsched::ghostAdd(G_NOTREADY, 1);
         return f.get() + 1;
       };
+      // half of the scenarios pass the non-default policies explicitly (kNotDeferred: timed waits must not run the
+      // continuation, but get() / wait() still may, and the continuation must still see a ready antecedent)
+      if (notDeferred) {
+        switch (sched) {
+          case 0: return a.then(fn, dispenso::kImmediateInvoker, dispenso::kNotAsync, dispenso::kNotDeferred);
+          case 1: return a.then(fn, pool, dispenso::kNotAsync, dispenso::kNotDeferred);
+          case 2: return a.then(fn, nt, dispenso::kNotAsync, dispenso::kNotDeferred);
+          case 3: return a.then(fn, *ts, dispenso::kNotAsync, dispenso::kNotDeferred);
+          default: return a.then(fn, *ctsS, dispenso::kNotAsync, dispenso::kNotDeferred);
+        }
+      }
       switch (sched) {
         case 0: return a.then(fn, dispenso::kImmediateInvoker);
         case 1: return a.then(fn, pool);
